@@ -47,10 +47,12 @@ Definition dom (H W : Z) : list pt :=
   flat_map (fun r => map (fun c => (r, c)) (zrange W)) (zrange H).
 Definition shape_ok (H W : Z) (g : list (list Z)) : bool := (zlen g =? H) && rect g W.
 
-Definition GridRecon (seed mask : list (list Z)) (fp : list (list bool)) (R : list (list Z)) : Prop :=
+Definition GridReconOffs (seed mask : list (list Z)) (offs : list pt) (R : list (list Z)) : Prop :=
   let H := zlen seed in
   let W := width seed in
-  IsRecon pt (fun p => inD H W p = true) (gpreds H W (fp_offsets fp)) (gval seed) (gval mask) (gval R).
+  IsRecon pt (fun p => inD H W p = true) (gpreds H W offs) (gval seed) (gval mask) (gval R).
+Definition GridRecon (seed mask : list (list Z)) (fp : list (list bool)) (R : list (list Z)) : Prop :=
+  GridReconOffs seed mask (fp_offsets fp) R.
 
 Definition check_pt (H W : Z) (offs : list pt) (seed mask R lvl : list (list Z)) (p : pt) : bool :=
   let rp := gval R p in
@@ -61,11 +63,13 @@ Definition check_pt (H W : Z) (offs : list pt) (seed mask R lvl : list (list Z))
    existsb (fun q => (0 <=? gval lvl q) && (gval lvl q <? gval lvl p) && (rp <=? gval R q)) ps).
 
 (* [lvl] is an untrusted certificate (computed by a breadth-first pass in the harness) *)
-Definition recon_check (seed mask : list (list Z)) (fp : list (list bool)) (R lvl : list (list Z)) : bool :=
+Definition recon_check_offs (seed mask : list (list Z)) (offs : list pt) (R lvl : list (list Z)) : bool :=
   let H := zlen seed in
   let W := width seed in
   (1 <=? H) && (1 <=? W) && shape_ok H W seed && shape_ok H W mask && shape_ok H W R &&
-  forallb (check_pt H W (fp_offsets fp) seed mask R lvl) (dom H W).
+  forallb (check_pt H W offs seed mask R lvl) (dom H W).
+Definition recon_check (seed mask : list (list Z)) (fp : list (list bool)) (R lvl : list (list Z)) : bool :=
+  recon_check_offs seed mask (fp_offsets fp) R lvl.
 
 (* ------------------------------------------------------------------ executable definition:
    iterate dilate-and-clip from the seed until nothing changes *)
@@ -83,18 +87,27 @@ Fixpoint iter_fix (fuel : nat) (H W : Z) (offs : list pt) (mask R : list (list Z
   | S f => let R' := step_grid H W offs mask R in
            if grid_eqb R' R then Some R else iter_fix f H W offs mask R'
   end.
-Definition recon_iter (fuel : nat) (seed mask : list (list Z)) (fp : list (list bool)) : option (list (list Z)) :=
+Definition recon_iter_offs (fuel : nat) (seed mask : list (list Z)) (offs : list pt) : option (list (list Z)) :=
   let H := zlen seed in
   let W := width seed in
   if shape_ok H W seed && shape_ok H W mask &&
      forallb (fun p => gval seed p <=? gval mask p) (dom H W)
-  then iter_fix fuel H W (fp_offsets fp) mask (tab H W (gval seed)) else None.
+  then iter_fix fuel H W offs mask (tab H W (gval seed)) else None.
+Definition recon_iter (fuel : nat) (seed mask : list (list Z)) (fp : list (list bool)) : option (list (list Z)) :=
+  recon_iter_offs fuel seed mask (fp_offsets fp).
 
 (* ------------------------------------------------------------------ wire entries *)
-(* (seed mask footprint R lvl) -> bool *)
+(* footprint offsets for the wire: offset = () for None (centre) or (o0 o1) *)
+Definition wire_offs (fp : sx) (off : sx) : list pt :=
+  match as_Zs off with
+  | [o0; o1] => fp_offsets_at (as_boolss fp) o0 o1
+  | _ => fp_offsets (as_boolss fp)
+  end.
+(* (seed mask footprint R lvl offset) -> bool *)
 Definition entry_check (x : sx) : sx :=
-  of_bool (recon_check (as_Zss (arg 0 x)) (as_Zss (arg 1 x)) (as_boolss (arg 2 x))
-                       (as_Zss (arg 3 x)) (as_Zss (arg 4 x))).
-(* (seed mask footprint fuel) -> (grid) | () *)
+  of_bool (recon_check_offs (as_Zss (arg 0 x)) (as_Zss (arg 1 x)) (wire_offs (arg 2 x) (arg 5 x))
+                            (as_Zss (arg 3 x)) (as_Zss (arg 4 x))).
+(* (seed mask footprint fuel offset) -> (grid) | () *)
 Definition entry_iter (x : sx) : sx :=
-  of_option of_Zss (recon_iter (as_nat (arg 3 x)) (as_Zss (arg 0 x)) (as_Zss (arg 1 x)) (as_boolss (arg 2 x))).
+  of_option of_Zss (recon_iter_offs (as_nat (arg 3 x)) (as_Zss (arg 0 x)) (as_Zss (arg 1 x))
+                                    (wire_offs (arg 2 x) (arg 4 x))).
